@@ -13,7 +13,13 @@ type Fh struct {
 	Gen uint64
 }
 
+// MakeFh decodes a file handle. A handle that does not have the length of
+// the handles this server issues cannot name an object; it decodes to the
+// null inode number, which lookups reject as stale.
 func MakeFh(fh3 nfstypes.Nfs_fh3) Fh {
+	if len(fh3.Data) != 16 {
+		return Fh{Ino: common.NULLINUM, Gen: 0}
+	}
 	dec := marshal.NewDec(fh3.Data)
 	i := dec.GetInt()
 	g := dec.GetInt()
